@@ -115,6 +115,8 @@ def coverage(prog):
 def run(ctx):
     r1(ctx)
     r2_r3_r4(ctx)
+    r2_reset_unconditional(ctx)
+    r4_absent_fields(ctx)
     r5(ctx)
     r6(ctx)
     # evidence (c) for CachedBlock.fee_rates: the recompute arm yields what the insertion-time cache held —
@@ -307,6 +309,56 @@ def r2_r3_r4(ctx):
         missing = [n for n in names if not readers(prog, 'ic_btc_interface::SetConfigRequest', n, fns)]
         ctx.check(bool(names) and not missing, 'R4', 'set_config-exhaustive', f, 'set_config_no_verification reads all %d fields of SetConfigRequest' % len(names),
                   'set_config_no_verification ignores field(s) %s of SetConfigRequest' % missing)
+
+
+def r2_reset_unconditional(ctx):
+    """the reset the upgrade hooks rely on clears the fetch mutex and the partial reply on every path —
+    a request abandoned by the upgrade is abandoned whatever the configuration says"""
+    prog = ctx.prog
+    f = ctx.fn('R2', 'ic_btc_canister::reset_syncing_state')
+    if not f:
+        return
+    g = cfg(f)
+    rets = return_blocks(f)
+    for fld, want in (('is_fetching_blocks', lambda v: const_val(v) in (0, False)), ('response_to_process', lambda v: P.agg(variant='None')(v))):
+        fa = field_assignments(prog, f, 'ic_btc_canister::state::SyncingState', fld)
+        good = len(fa) >= 1 and all(want(x[2]) for x in fa) and any(not cond_exprs(prog, f, x[0]) and all(g.dominates(x[0], r) for r in rets) for x in fa)
+        ctx.check(good, 'R2', 'reset-unconditional:' + fld, f.where(fa[0][0]) if fa else f,
+                  'reset_syncing_state clears `%s` on every path' % fld,
+                  'reset_syncing_state does not clear `%s` on every path (conditions: %s): an upgrade during a fetch can persist the fetch mutex / a stale partial reply'
+                  % (fld, [fmt_conds(cond_exprs(prog, f, x[0])) for x in fa]))
+
+
+def r4_absent_fields(ctx):
+    """an upgrade argument that does not mention a setting leaves it alone: every state write of
+    set_config_no_verification happens under `request.<field> is Some`"""
+    prog = ctx.prog
+    f = ctx.fn('R4', 'ic_btc_canister::api::set_config::set_config_no_verification')
+    if not f:
+        return
+    st_adts = {norm(a) for a in state_adts(prog)}
+    REQF = lambda x: isinstance(x, tuple) and x[0] == 'field' and x[3] == 'ic_btc_interface::SetConfigRequest'
+    n = 0
+    for k in [f] + prog.descendants(f):
+        sites = []
+        for bi, b in enumerate(k.blocks):
+            if b.get('cleanup'):
+                continue
+            for st in b['stmts']:
+                fp = _field_path(st['dst'], st_adts)
+                if fp:
+                    sites.append((bi, fp[-1]))
+            t = b['term']
+            if t['k'] == 'call' and norm((const_of(t['func']) or {}).get('resolved') or '').endswith('::set_stability_threshold'):
+                sites.append((bi, 'GenericUnstableBlocks.stability_threshold'))
+        for bi, fld in sites:
+            n += 1
+            conds = cond_exprs(prog, k, bi)
+            guarded = [c for c in conds if c[0] == 'is' and tuple(c[2]) == ('Some',) and any(REQF(x) for x in walk(c[1]))]
+            ctx.check(bool(guarded), 'R4', 'set_config-absent-field-untouched:' + fld, k.where(bi),
+                      '`%s` is written only when the request carries a value for it' % fld,
+                      '`%s` is written whether or not the request mentions it: an upgrade argument (or set_config call) that omits the setting resets it' % fld)
+    ctx.floor('R4', 'state writes of set_config_no_verification', n, 6)
 
 
 def r5(ctx):
